@@ -227,8 +227,47 @@ func runC12(outDir string, seed int64, tier string) {
 		}
 		sum.Evaluations++
 	}
+	// queries without named variables: Next is true once per answer all the same, and Err reports a late error
+	for _, vf := range []struct {
+		q    string
+		n    int
+		oops bool
+	}{
+		{"member(a, [a,a,a]).", 3, false}, {"member(_, [1,2]).", 2, false}, {"true ; true ; true ; true.", 4, false}, {"fail.", 0, false},
+		{"true ; throw(oops).", 1, true}, {"member(a, [a,b,a]), (true ; true).", 4, false}, {"between(1, 5, _).", 5, false},
+	} {
+		p := prolog.New(nil, nil)
+		desc := map[string]interface{}{"text": vf.q + "  Next until false, then Err", "query": vf.q}
+		sum.Cases[fmt.Sprint(id)] = desc
+		sum.Evaluations++
+		res := make(chan string, 1)
+		go func() {
+			sols, err := p.Query(vf.q)
+			if err != nil {
+				res <- "query error " + err.Error()
+				return
+			}
+			n := 0
+			for n < 20 && sols.Next() {
+				n++
+			}
+			e := sols.Err()
+			sols.Close()
+			res <- fmt.Sprintf("%d answers, oops=%v", n, e != nil && strings.Contains(e.Error(), "oops"))
+		}()
+		want := fmt.Sprintf("%d answers, oops=%v", vf.n, vf.oops)
+		select {
+		case got := <-res:
+			if got != want {
+				sum.Failures = append(sum.Failures, failure{ID: id, Class: "solutions:variable-free-query-miscounted", Input: desc, Observed: got, Expected: want})
+			}
+		case <-time.After(3 * time.Second):
+			sum.Failures = append(sum.Failures, failure{ID: id, Class: "solutions:call-blocks", Input: desc, Observed: "no return within 3 s", Expected: want})
+		}
+		id++
+	}
 	sum.Samples = append(sum.Samples, map[string]interface{}{"query": "between(1, 2, X), tick .", "script": []string{"CNext", "CNext", "CNext", "CNext", "CNext"}})
-	sum.Rule = fmt.Sprintf("exhaustive: every script of 1..%d calls over {Next, Scan, Err, Close} (plus a few longer ones) x producers {0..3 answers then end, 0..3 answers then error, answers for ever}; each call under a 300 ms watchdog; goals counted after Close; goroutines counted; two interleaved iterations; every script is distinct and non-trivial", maxLen)
+	sum.Rule = fmt.Sprintf("exhaustive: every script of 1..%d calls over {Next, Scan, Err, Close} (plus a few longer ones) x producers {0..3 answers then end, 0..3 answers then error, answers for ever}; each call under a 300 ms watchdog; goals counted after Close; goroutines counted; two interleaved iterations; queries without named variables counted; every script is distinct and non-trivial", maxLen)
 	header := "From Coq Require Import ZArith List String.\nFrom PV Require Import Model.Solutions Model.SolutionsCheck.\nImport ListNotations.\nOpen Scope string_scope.\nOpen Scope Z_scope.\n"
 	shard := 1500
 	nf := 0
